@@ -49,11 +49,19 @@ var encoders = []encoder{
 	{"pretty.JSON", "pretty", false, false, func(v any, o *ojg.Options) (string, error) {
 		return pretty.JSON(v, o), nil
 	}},
+	// "alt.Decompose followed by writing ... under the same options"; Sort only
+	// fixes the member order of the text
 	{"alt.Decompose", "alt", false, false, func(v any, o *ojg.Options) (string, error) {
-		return oj.JSON(alt.Decompose(v, o), o), nil
+		tree := alt.Decompose(v, o)
+		wo := *o
+		wo.Sort = true
+		return oj.JSON(tree, &wo), nil
 	}},
 	{"alt.Alter", "alt", false, false, func(v any, o *ojg.Options) (string, error) {
-		return oj.JSON(alt.Alter(v, o), o), nil
+		tree := alt.Alter(v, o)
+		wo := *o
+		wo.Sort = true
+		return oj.JSON(tree, &wo), nil
 	}},
 }
 
@@ -77,15 +85,23 @@ func (v variant) String() string {
 	return s + ")"
 }
 
+// variants: oj.JSON and sen.String get the full (pass x indent) square; the
+// other three oj entry points share the writer code and get two opposite
+// corners each; pretty and alt have no indent dimension.
 var variants = func() []variant {
 	var out []variant
 	for i, e := range encoders {
-		for _, ptr := range []bool{false, true} {
-			if e.indent {
-				out = append(out, variant{i, ptr, 0}, variant{i, ptr, 2})
-			} else {
-				out = append(out, variant{i, ptr, 0})
-			}
+		switch e.name {
+		case "oj.JSON", "sen.String":
+			out = append(out, variant{i, false, 0}, variant{i, false, 2}, variant{i, true, 0}, variant{i, true, 2})
+		case "oj.Marshal":
+			out = append(out, variant{i, false, 0}, variant{i, true, 2})
+		case "oj.Write":
+			out = append(out, variant{i, true, 0}, variant{i, false, 2})
+		case "oj.Writer":
+			out = append(out, variant{i, false, 2}, variant{i, true, 0})
+		default:
+			out = append(out, variant{i, false, 0}, variant{i, true, 0})
 		}
 	}
 	return out
